@@ -703,3 +703,39 @@ def _dq_spec(aw, ac, s, trace):
 
 
 c.ens("word-spacing-aw-character-spacing-ac-then-next-line-and-show", _dq_spec)
+
+
+# -- initial text state (ISO 32000-1 Table 104) and BT's reset; the module-level identity matrix ---------------------------------------------------------------
+@exhaustive("initial-text-state-is-ISO-table-104", props=["C05", "C12"],
+            note="a new PDFTextState has Tc 0, Tw 0, Th 100, TL 0, Trise 0, Tmode 0, no font, and identity text and line matrices; reset() (BT) restores the two "
+                 "matrices and nothing else; utils.MATRIX_IDENTITY is (1, 0, 0, 1, 0, 0); a new interpreter state after init_state has these values too")
+def _():
+    from pyvc.extract import real_module
+    pin_ = real_module("pdfminer.pdfinterp")
+    ut_ = real_module("pdfminer.utils")
+    fails, cases = [], 0
+    want = dict(font=None, fontsize=0, charspace=0, wordspace=0, scaling=100, leading=0, render=0, rise=0, matrix=(1, 0, 0, 1, 0, 0), linematrix=(0, 0))
+    ts = pin_.PDFTextState()
+    cases += 1
+    got = {k: getattr(ts, k, "<missing>") for k in want}
+    if got != want or set(vars(ts)) != set(want):
+        fails.append(dict(fresh=str(got), attributes=sorted(vars(ts))))
+    cases += 1
+    if tuple(ut_.MATRIX_IDENTITY) != (1, 0, 0, 1, 0, 0):
+        fails.append(dict(MATRIX_IDENTITY=str(ut_.MATRIX_IDENTITY)))
+    marks = dict(font="F", fontsize=7, charspace=1.5, wordspace=2.5, scaling=50, leading=3, render=2, rise=4)
+    for k, v in marks.items():
+        setattr(ts, k, v)
+    ts.matrix, ts.linematrix = (2, 0, 0, 2, 5, 6), (3, 4)
+    ts.reset()
+    cases += 1
+    got = {k: getattr(ts, k) for k in want}
+    if got != dict(marks, matrix=(1, 0, 0, 1, 0, 0), linematrix=(0, 0)):
+        fails.append(dict(after_reset=str(got)))
+    cases += 1
+    it = pin_.PDFPageInterpreter(pin_.PDFResourceManager(), real_module("pdfminer.pdfdevice").PDFDevice(pin_.PDFResourceManager()))
+    it.init_state((2, 0, 0, 3, 4, 5))
+    got = {k: getattr(it.textstate, k) for k in want}
+    if got != want or tuple(it.ctm) != (2, 0, 0, 3, 4, 5) or it.gstack != [] or it.argstack != [] or it.scs is not None and it.scs.name != "DeviceGray":
+        fails.append(dict(after_init_state=str(got), ctm=str(it.ctm)))
+    return dict(cases=cases, failures=fails)
